@@ -31,41 +31,51 @@ def fuel : Nat := 16
 
 def rootSk (r : String × Nat × List Nat) : Option Sk := rootOf BV.Gen.skelFns fuel r.2.1 r.2.2
 
+/-- a root with the parameters under which places may already hold a block when it is entered -/
+abbrev RootIn := (String × Nat × List Nat) × List Nat
+
+def rootsIn : List RootIn := BV.Gen.skelRoots.zip BV.Gen.skelRootsIn
+
 /-- the checker's verdict for one root (a root without skeleton makes no claim) -/
-def rootOk (r : String × Nat × List Nat) : Bool :=
-  match rootSk r with
+def rootOk (r : RootIn) : Bool :=
+  match rootSk r.1 with
   | none => true
-  | some s => balancedEsc r.2.2 s
+  | some s => balancedFrom (entryVars r.2 s) r.1.2.2 s
 
 /-- **skeletons_balanced**: every allocation skeleton generated from the current tree passes the checker -/
-theorem skeletons_balanced : BV.Gen.skelRoots.all rootOk = true := by decide +kernel
+theorem skeletons_balanced : rootsIn.all rootOk = true := by decide +kernel
 
 /-- **skeleton_balanced**: for every generated root that has a skeleton, on EVERY path (`sc` = any script of
-    branch choices, loop counts, zero-length allocations) through the expanded skeleton, started with no
-    tracked place holding a block: no block is lost (nothing overwritten, no local leaves its scope holding
-    a block — early returns included), and whatever is still held at the exit sits under one of the
-    root's declared out-parameters (none for `WriteMetaBlockInternal`: there the store is empty again) -/
-theorem skeleton_balanced (r : String × Nat × List Nat) (hr : r ∈ BV.Gen.skelRoots) (sk : Sk)
-    (hsk : rootSk r = some sk) (s : St) (hs : s.store = []) (sc : List Nat) :
+    branch choices, loop counts, zero-length allocations) through the expanded skeleton, started in a state
+    where at most the places under the root's entry parameters hold a block (none for the function roots;
+    `self.*` for the method roots `StrideEval::update_block_type`, `CommandQueue::push`): no block is lost
+    (nothing overwritten, no local leaves its scope holding a block — early returns included), and whatever
+    is still held at the exit sits under one of the root's declared out-parameters -/
+theorem skeleton_balanced (r : RootIn) (hr : r ∈ rootsIn) (sk : Sk)
+    (hsk : rootSk r.1 = some sk) (s : St) (hs : Abs (entryVars r.2 sk) s) (sc : List Nat) :
     (run sk (s, sc)).st.lost = s.lost ∧
-    ∀ p ∈ (run sk (s, sc)).st.store, ∃ a, p.1.head? = some a ∧ a ∈ r.2.2 := by
+    ∀ p ∈ (run sk (s, sc)).st.store, ∃ a, p.1.head? = some a ∧ a ∈ r.1.2.2 := by
   have h := List.all_eq_true.mp skeletons_balanced r hr
   simp only [rootOk, hsk] at h
-  exact balancedEsc_sound r.2.2 sk h s hs sc
+  exact balancedFrom_sound _ r.1.2.2 sk h s hs sc
 
-/-- the roots without out-parameters end with an empty store: every block allocated on the path was freed
-    on the path -/
-theorem skeleton_balanced_closed (r : String × Nat × List Nat) (hr : r ∈ BV.Gen.skelRoots) (he : r.2.2 = [])
-    (sk : Sk) (hsk : rootSk r = some sk) (s : St) (hs : s.store = []) (sc : List Nat) :
+/-- the roots without entry- and out-parameters, started with an empty store, end with an empty store:
+    every block allocated on the path was freed on the path -/
+theorem skeleton_balanced_closed (r : RootIn) (hr : r ∈ rootsIn) (hi : r.2 = []) (he : r.1.2.2 = [])
+    (sk : Sk) (hsk : rootSk r.1 = some sk) (s : St) (hs : s.store = []) (sc : List Nat) :
     (run sk (s, sc)).st.lost = s.lost ∧ (run sk (s, sc)).st.store = [] := by
-  obtain ⟨h1, h2⟩ := skeleton_balanced r hr sk hsk s hs sc
+  have ha : Abs (entryVars r.2 sk) s := by intro p hp; rw [hs] at hp; cases hp
+  obtain ⟨h1, h2⟩ := skeleton_balanced r hr sk hsk s ha sc
   refine ⟨h1, ?_⟩
   cases hst : (run sk (s, sc)).st.store with
   | nil => rfl
   | cons p rest =>
-    obtain ⟨a, _, ha⟩ := h2 p (by rw [hst]; exact List.mem_cons_self)
-    rw [he] at ha
-    cases ha
+    obtain ⟨a, _, ha'⟩ := h2 p (by rw [hst]; exact List.mem_cons_self)
+    rw [he] at ha'
+    cases ha'
+
+/-- the two lists are generated side by side -/
+theorem roots_aligned : BV.Gen.skelRoots.length = BV.Gen.skelRootsIn.length := by decide
 
 /-- the expansion left no call behind (the inlining depth suffices) -/
 def callFree : Sk → Bool
@@ -91,6 +101,10 @@ example : balanced (.scope 9 (.seq (.loop (.alloc 1 [9, 2])) (.free 1 [9, 2]))) 
 /-- the growth idiom `new = allocate; free_cell(replace(&mut old, new))` in a loop, released at the end: accepted -/
 example : balanced (.scope 9 (.seq (.loop (.seq (.alloc 1 [9, 3]) (.seq (.free 1 [9, 2]) (.move [9, 3] [9, 2]))))
     (.free 1 [9, 2]))) = true := by decide
+/-- a method entered on a live object: the growth idiom is accepted, the plain overwrite `self.score = new`
+    (the old block dropped without `free_cell`) is rejected -/
+example : balancedFrom [[5, 6]] [5] (.alt (.seq (.alloc 1 [9, 2]) (.seq (.free 1 [5, 6]) (.move [9, 2] [5, 6]))) .skip) = true := by decide
+example : balancedFrom [[5, 6]] [5] (.alt (.seq (.alloc 1 [9, 2]) (.move [9, 2] [5, 6])) .skip) = false := by decide
 /-- a callee that fills an out-parameter and a caller that forgets one of two fields -/
 example : balanced (expand [.seq (.alloc 1 [5, 6]) (.alloc 2 [5, 7])] 2
     (.scope 1000000 (.seq (.call 0 0 [(5, [1000000, 8])]) (.free 1 [1000000, 8, 6])))) = false := by decide
